@@ -536,6 +536,35 @@ fn same_rsync(got: &uri::Rsync, spec: &str) -> Result<bool, Fail> {
     Ok(*got == rsync(spec)?)
 }
 
+/// The written file in other, equivalent spellings (`xmlrespell`): a parser may refuse one,
+/// but what it accepts is the value that was written.
+fn respelled<T: PartialEq + std::fmt::Debug>(xml: &[u8], value: &T, obs: &mut Obs, parse: impl Fn(&[u8]) -> Result<T, String>) -> CheckResult {
+    if xml.len() > 48 << 10 {
+        return Ok(());
+    }
+    let Ok(text) = std::str::from_utf8(xml) else { return Ok(()) };
+    let h = xml.iter().fold(0xcbf2_9ce4_8422_2325u64, |h, &b| (h ^ b as u64).wrapping_mul(0x100_0000_01b3));
+    for k in 0..2u64 {
+        let Some(r) = crate::xmlrespell::respell(text, h.wrapping_add(k)) else {
+            obs.label("respell-not-applicable");
+            return Ok(());
+        };
+        match parse(r.text.as_bytes()) {
+            Err(_) => obs.label("respelled-refused"),
+            Ok(v) => {
+                obs.label("respelled-accepted");
+                ensure_sig!(
+                    v == *value,
+                    "respelled-parses-differently",
+                    "an equivalent spelling of the written file parses to a different value:\n{}\n--- written by the library:\n{}",
+                    &r.text[..r.text.len().min(1500)], &text[..text.len().min(1500)]
+                );
+            }
+        }
+    }
+    Ok(())
+}
+
 fn run_roundtrip(c: &RoundTrip, obs: &mut Obs) -> CheckResult {
     let xml = write_file(&c.file)?;
     match &c.file {
@@ -564,6 +593,7 @@ fn run_roundtrip(c: &RoundTrip, obs: &mut Obs) -> CheckResult {
                 ensure!(hash_arr(&got.hash()) == hash32(exp.hash), "delta #{} hash differs", i);
             }
             ensure!(parsed == value, "parsed notification != written value (library ==)");
+            respelled(&xml, &value, obs, |b| NotificationFile::parse(b).map_err(|e| e.to_string()))?;
             // parse_limited: documented behaviour on both sides of the limit
             let limit = real_limit(c.limit);
             obs.label_if(limit > 1 << 30, "huge-delta-limit");
@@ -602,6 +632,7 @@ fn run_roundtrip(c: &RoundTrip, obs: &mut Obs) -> CheckResult {
                 ensure!(got.data().as_ref() == exp.data.bytes().as_slice(), "publish #{} data differs ({} bytes written, {} read)", i, exp.data.bytes().len(), got.data().len());
             }
             ensure!(parsed == value, "parsed snapshot != written value (library ==)");
+            respelled(&xml, &value, obs, |b| Snapshot::parse(b).map_err(|e| e.to_string()))?;
             // harness processor
             let mut col = Collector::new(c.read_chunk);
             with_reader(&xml, c.bufsize, |r| col.process(r))
@@ -665,6 +696,7 @@ fn run_roundtrip(c: &RoundTrip, obs: &mut Obs) -> CheckResult {
                 }
             }
             ensure!(parsed == value, "parsed delta != written value (library ==)");
+            respelled(&xml, &value, obs, |b| Delta::parse(b).map_err(|e| e.to_string()))?;
             let uri_of = |e: &ElSpec| match e {
                 ElSpec::Publish { uri, .. } | ElSpec::Update { uri, .. } | ElSpec::Withdraw { uri, .. } => uri.clone(),
             };
